@@ -276,6 +276,7 @@ def check(ctx: Ctx) -> None:
     # R6.6 = R8.3-R8.5: a 422 on the finalizer JSON-patch carries the transformation forward (never dropped)
     from . import C08
     C08.check_carry_forward(ctx, rule_prefix='R6.6')
+    C08.check_patch_obj(ctx, rule_prefix='R6.6')
 
 
 SPEC = PropSpec(
